@@ -198,3 +198,94 @@ func (r *Rng) Profile() Profile {
 	}
 	return p
 }
+
+// ---- rich values for the round-trip check (C11): every type at every position
+
+func (r *Rng) richTime() time.Time {
+	var sec int64
+	switch r.Intn(5) {
+	case 0:
+		sec = -int64(r.U64() % uint64(250*365*24*3600)) // before 1970
+	case 1:
+		sec = int64(r.U64() % uint64(8000*365*24*3600)) // far future, beyond the UnixNano range
+	default:
+		sec = int64(r.U64() % uint64(230*365*24*3600))
+	}
+	off := r.Range(-14*60, 14*60) * 60 // whole-minute zone offsets
+	if off == -60 {
+		off = 0 // Go's binary time encoding reserves the offset of -1 minute
+	}
+	if r.P(30) {
+		return time.Unix(sec, int64(r.Intn(1_000_000_000))).UTC()
+	}
+	return time.Unix(sec, int64(r.Intn(1_000_000_000))).In(time.FixedZone("", off))
+}
+
+func (r *Rng) richScalar() any {
+	switch r.Intn(16) {
+	case 0:
+		return nil
+	case 1:
+		return r.Bool()
+	case 2:
+		return int64(r.U64())
+	case 3:
+		return r.U64()
+	case 4:
+		return Pick(r, []any{int64(math.MaxInt64), int64(math.MinInt64), uint64(math.MaxUint64), int64(0), uint64(0), int64(-1), uint64(1) << 63})
+	case 5:
+		return Pick(r, []any{float64(0), math.Copysign(0, -1), math.MaxFloat64, -math.MaxFloat64, math.SmallestNonzeroFloat64, math.Inf(1), math.Inf(-1), 0.1, -1e-300})
+	case 6:
+		return math.Float64frombits(r.U64()&^(0x7ff<<52) | uint64(r.Intn(2046)+1)<<52)
+	case 7:
+		return ""
+	case 8:
+		n := r.Intn(12)
+		b := make([]byte, n)
+		for i := range b {
+			b[i] = byte(r.Intn(256)) // arbitrary bytes: mostly not UTF-8
+		}
+		return string(b)
+	case 9:
+		return Pick(r, []string{"héllo", "日本語", "a\x00b", "$x", "with.dot", " ", "\xff\xfe"})
+	case 10, 11:
+		return r.richTime()
+	case 12:
+		return int64(r.Range(-1000, 1000))
+	case 13:
+		return float64(r.Range(-1000, 1000)) / 8
+	default:
+		return r.Str()
+	}
+}
+
+// Rich returns a value with containers nested up to depth, every type at every position.
+func (r *Rng) Rich(depth int) any {
+	if depth <= 0 || r.P(45) {
+		return r.richScalar()
+	}
+	if r.Bool() {
+		n := r.Intn(4)
+		s := make([]any, n)
+		for i := range s {
+			s[i] = r.Rich(depth - 1)
+		}
+		return s
+	}
+	n := r.Intn(4)
+	m := make(map[string]any, n)
+	for i := 0; i < n; i++ {
+		m[Pick(r, []string{"a", "b", "c", "k", "é", "", "x y"})] = r.Rich(depth - 1)
+	}
+	return m
+}
+
+// RichDoc returns a document (without _id) of rich values.
+func (r *Rng) RichDoc() map[string]any {
+	d := map[string]any{}
+	n := r.Range(1, 7)
+	for i := 0; i < n; i++ {
+		d[Pick(r, []string{"a", "b", "c", "d", "e", "f", "g", "arr", "obj", "é"})] = r.Rich(4)
+	}
+	return d
+}
